@@ -263,6 +263,48 @@ pub fn shard_fault(def: &E2Def, tier: &str, seed: u64, shard: u32, programs: u32
             }
         }
     }
+    // several writer threads (sampled schedules): fault at a random journal call index
+    if out.failure.is_none() {
+        let runs = if thorough { programs * 12 } else { programs * 3 };
+        for _ in 0..runs {
+            rng ^= rng << 13;
+            rng ^= rng >> 7;
+            rng ^= rng << 17;
+            let threads = 2 + (rng % 3) as usize;
+            let ops = 8 + ((rng >> 8) % 8) as usize;
+            // large memtables: every journal call then happens in a foreground operation (a failure
+            // inside a background worker has a window between the error and the poison flag that a
+            // sampled schedule would turn into a flaky alarm; worker-side failures are covered by
+            // the single-threaded, stepped runs above)
+            let flavor = 1u8;
+            let idx = 3 + (rng >> 24) % 60;
+            let kind = ["eio_write", "enospc_write", "short_enospc", "eio_sync"][((rng >> 40) % 4) as usize];
+            let sticky = (rng >> 44) % 2;
+            let f = format!("{idx}:{kind}:{sticky}");
+            out.evaluations += 1;
+            *stats.entry("multi_writer_fault_runs".into()).or_insert(0) += 1;
+            match mt_fault_check(&sb, threads, ops, flavor, &f) {
+                Ok(nt) => {
+                    if nt {
+                        *stats.entry("multi_writer_runs_with_writes_after_fault".into()).or_insert(0) += 1;
+                        out.nt_hashes.push(case_hash(&(threads, ops, flavor, &f, rng)));
+                    }
+                }
+                Err(e) if e.starts_with("INCONCLUSIVE") => {
+                    *stats.entry("multi_writer_inconclusive".into()).or_insert(0) += 1;
+                }
+                Err(e) => {
+                    out.failure = Some(FailureOut {
+                        case: json!({"property": def.id, "kind": "multi-writer", "threads": threads, "ops": ops, "flavor": flavor, "fault": f, "failure": {"msg": e}}),
+                        msg: e,
+                        step: 0,
+                        original_msg: String::new(),
+                    });
+                    break;
+                }
+            }
+        }
+    }
     out.stats = stats;
     let _ = std::fs::remove_dir_all(&base);
     out
@@ -319,4 +361,185 @@ pub fn replay_fault(rp: &E2Replay) -> Option<String> {
     };
     let _ = std::fs::remove_dir_all(&base);
     r.err().filter(|e| !e.starts_with("INCONCLUSIVE"))
+}
+
+// ------------------------------------------------------------------ several writer threads
+
+#[derive(Clone, Debug, serde::Serialize, serde::Deserialize)]
+pub struct MtOp {
+    pub thread: usize,
+    /// keys written by this operation (1 = insert/remove, 2 = batch)
+    pub keys: Vec<String>,
+    pub remove: bool,
+    /// interposer-log size (bytes) when the call started / returned
+    pub l_start: u64,
+    pub l_end: u64,
+    pub ok: bool,
+}
+
+/// child side: `threads` writer threads on cloned handles, each operation on its own keys
+pub fn mt_crashee(root: &str, out: &str, threads: usize, ops: usize, flavor: u8) -> i32 {
+    use fjall::{Database, KeyspaceCreateOptions};
+    std::panic::set_hook(Box::new(|_| {}));
+    let shimlog = std::env::var("FJSHIM_LOG").unwrap_or_default();
+    let now = move || std::fs::metadata(&shimlog).map(|m| m.len()).unwrap_or(0);
+    fjall::verif::JOURNAL_POS_SCALE.store(64_000, std::sync::atomic::Ordering::SeqCst);
+    let db = match Database::builder(root).worker_threads(2).open() {
+        Ok(d) => d,
+        Err(_) => return 6,
+    };
+    let ks = match db.keyspace("a", || KeyspaceCreateOptions::default().max_memtable_size(if flavor % 2 == 0 { 1024 } else { 64 * 1024 * 1024 })) {
+        Ok(k) => k,
+        Err(_) => return 6,
+    };
+    let ks2 = match db.keyspace("b", KeyspaceCreateOptions::default) {
+        Ok(k) => k,
+        Err(_) => return 6,
+    };
+    let init = now();
+    let recs: std::sync::Mutex<Vec<MtOp>> = std::sync::Mutex::new(vec![]);
+    std::thread::scope(|s| {
+        for t in 0..threads {
+            let (db, ks, ks2, recs, now) = (&db, &ks, &ks2, &recs, now.clone());
+            s.spawn(move || {
+                let mut local = vec![];
+                for i in 0..ops {
+                    let k1 = format!("t{t}-{i}");
+                    let val = vec![b'a' + (t as u8 % 20); 20 + (i * 37 + t * 11) % 300 + if i % 9 == 8 { 9000 } else { 0 }];
+                    let l_start = now();
+                    let (keys, remove, ok) = match i % 5 {
+                        3 => {
+                            // batch over two keyspaces
+                            let k2 = format!("t{t}-{i}-b");
+                            let mut b = db.batch();
+                            b.insert(ks, k1.clone(), val.clone());
+                            b.insert(ks2, k2.clone(), val.clone());
+                            (vec![k1, k2], false, b.commit().is_ok())
+                        }
+                        4 if i >= 4 => {
+                            let k0 = format!("t{t}-{}", i - 4);
+                            (vec![k0.clone()], true, ks.remove(k0).is_ok())
+                        }
+                        _ => (vec![k1.clone()], false, ks.insert(k1, val).is_ok()),
+                    };
+                    let l_end = now();
+                    local.push(MtOp { thread: t, keys, remove, l_start, l_end, ok });
+                }
+                recs.lock().unwrap().extend(local);
+            });
+        }
+    });
+    let v = recs.into_inner().unwrap();
+    let _ = std::fs::write(out, serde_json::to_string(&serde_json::json!({"init": init, "ops": v})).unwrap());
+    drop(ks);
+    drop(ks2);
+    drop(db);
+    0
+}
+
+/// parent side: one multi-threaded fault run + oracle
+pub fn mt_fault_check(sb: &Sandbox, threads: usize, ops: usize, flavor: u8, fail: &str) -> Result<bool, String> {
+    sb.reset();
+    let exe = std::env::current_exe().unwrap();
+    let out = sb.base.join("mt.json");
+    let _ = std::fs::remove_file(&out);
+    let mut child = std::process::Command::new(exe)
+        .args(["mtcrashee", "x", "--root"])
+        .arg(&sb.root)
+        .arg("--out")
+        .arg(&out)
+        .args(["--threads", &threads.to_string(), "--ops", &ops.to_string(), "--flavor", &flavor.to_string()])
+        .env("LD_PRELOAD", SHIM)
+        .env("FJSHIM_ROOT", &sb.root)
+        .env("FJSHIM_LOG", &sb.log)
+        .env("FJSHIM_SCOPE", "jnl")
+        .env("FJSHIM_FAIL", fail)
+        .env_remove("FJSHIM_KILL")
+        .stdout(std::process::Stdio::null())
+        .stderr(std::process::Stdio::null())
+        .spawn()
+        .map_err(|e| format!("INCONCLUSIVE: spawn: {e}"))?;
+    let t0 = std::time::Instant::now();
+    loop {
+        match child.try_wait() {
+            Ok(Some(_)) => break,
+            Ok(None) => {
+                if t0.elapsed().as_secs() > 90 {
+                    let _ = child.kill();
+                    let _ = child.wait();
+                    return Err("INCONCLUSIVE: multi-threaded fault run timed out".into());
+                }
+                std::thread::sleep(std::time::Duration::from_millis(2));
+            }
+            Err(e) => return Err(format!("INCONCLUSIVE: {e}")),
+        }
+    }
+    let v: serde_json::Value = match std::fs::read_to_string(&out).ok().and_then(|s| serde_json::from_str(&s).ok()) {
+        Some(v) => v,
+        None => return Ok(false), // the fault hit database creation
+    };
+    let recs: Vec<MtOp> = serde_json::from_value(v["ops"].clone()).map_err(|e| format!("INCONCLUSIVE: {e}"))?;
+    // byte offset of the first fault line in the interposer log
+    let log = std::fs::read_to_string(&sb.log).unwrap_or_default();
+    let mut off = 0u64;
+    let mut fault_at: Option<u64> = None;
+    for l in log.split_inclusive('\n') {
+        if l.contains(" writeFAIL ") || l.contains(" syncFAIL ") {
+            fault_at = Some(off);
+            break;
+        }
+        off += l.len() as u64;
+    }
+    let Some(f) = fault_at else { return Ok(false) };
+    // (2) nothing is acknowledged after the failure
+    let mut attempted_after = 0;
+    for r in &recs {
+        if r.l_start > f {
+            attempted_after += 1;
+        }
+        if r.ok && r.l_end > f && r.l_start > f {
+            return Err(format!("thread {}: operation on {:?} started after the journal failure and was acknowledged", r.thread, r.keys));
+        }
+        // (an operation that started before the fault and whose return was observed after it may
+        // have completed just before the fault fired: the two clock readings cannot tell, so it is
+        // judged by the recovery clause only)
+    }
+    // (3) reopen: acknowledged-before => wholly present; failed => wholly present or wholly absent
+    let root = sb.root.clone();
+    let r = std::panic::catch_unwind(move || -> Result<(std::collections::BTreeSet<String>, std::collections::BTreeSet<String>), String> {
+        let db = fjall::Database::builder(&root).worker_threads_unchecked(0).open().map_err(|e| format!("reopening after the I/O failure failed: {e:?}"))?;
+        let mut a = std::collections::BTreeSet::new();
+        let mut b = std::collections::BTreeSet::new();
+        for (n, set) in [("a", &mut a), ("b", &mut b)] {
+            let ks = db.keyspace(n, fjall::KeyspaceCreateOptions::default).map_err(|e| format!("{e:?}"))?;
+            for g in ks.iter() {
+                set.insert(String::from_utf8_lossy(&g.key().map_err(|e| format!("{e:?}"))?).to_string());
+            }
+        }
+        Ok((a, b))
+    });
+    let (a, b) = match r {
+        Ok(x) => x?,
+        Err(_) => return Err("recovery panicked".into()),
+    };
+    let present = |k: &String| if k.ends_with("-b") { b.contains(k) } else { a.contains(k) };
+    // removed keys: key i-4 of the same thread
+    let removed_ok: std::collections::BTreeSet<String> = recs.iter().filter(|r| r.remove && r.ok).map(|r| r.keys[0].clone()).collect();
+    let removed_failed: std::collections::BTreeSet<String> = recs.iter().filter(|r| r.remove && !r.ok).map(|r| r.keys[0].clone()).collect();
+    for r in recs.iter().filter(|r| !r.remove) {
+        let states: Vec<bool> = r.keys.iter().map(present).collect();
+        let later_removed = r.keys.iter().any(|k| removed_ok.contains(k) || removed_failed.contains(k));
+        if r.ok && !later_removed && states.iter().any(|p| !p) {
+            return Err(format!("thread {}: acknowledged write of {:?} is missing after reopen", r.thread, r.keys));
+        }
+        if !r.ok && states.iter().any(|p| *p) && states.iter().any(|p| !p) {
+            return Err(format!("thread {}: failed batch {:?} is partially present after reopen", r.thread, r.keys));
+        }
+    }
+    for k in &removed_ok {
+        if present(k) {
+            return Err(format!("acknowledged remove of {k} is undone after reopen"));
+        }
+    }
+    Ok(attempted_after >= 1)
 }
